@@ -1,6 +1,6 @@
 (* C14 property theorems. Nothing but statements closed by `exact lemma` and Print Assumptions. *)
 From Coq Require Import ZArith List Bool Lia.
-From OG Require Import C14.Model C14.Proofs C14.Inv C14.XModel C14.XProofs C14.XInv C14.XNode.
+From OG Require Import C14.Model C14.Proofs C14.Inv C14.XModel C14.XProofs C14.XInv C14.XNode C14.XAgree.
 Import ListNotations.
 Open Scope Z_scope.
 
@@ -258,3 +258,30 @@ Proof.
   - intros s [<-|[<-|[]]] _; reflexivity.
   - intros s s' [<-|[<-|[]]] [<-|[<-|[]]]; cbn; intros; auto; discriminate.
 Qed.
+
+(* -- the node's view agrees with the catalogue: the invariant part of NodeOK -- *)
+(* After EVERY trace (repaired index-group choice, any pruning variant): each shard a store node holds has an id the
+   catalogue has issued, and agrees with EVERY catalogue entry that still lists that id - same partition, same index
+   reference, same group end, same policy. So for the shards that are still listed the events re-establish "the node's
+   shard is the listed one, with the catalogue's span" (premise nk_sh of the theorem above); a shard can only drop out
+   of that premise by no longer being listed at all. The corresponding fact for indexes (the end time a node holds
+   for an index vs. the catalogue's index-group end) is not proved: it is compared with the running engine after every
+   event of every trace (the engine's index end is an observable of the correspondence). *)
+Theorem C14_node_agrees_all_traces : forall repP es ps n s sg cs,
+  let w := fst (xrun true repP (xworld0 ps n) es) in
+  In s (x_shards w) -> xs_id s <= c_maxsh (x_cat w) /\
+  (In sg (c_sgs (x_cat w)) -> In cs (sg_shards sg) -> cs_id cs = xs_id s ->
+   cs_pt cs = xs_pt s /\ cs_ix cs = xs_ix s /\ sg_end sg = xs_end s /\ sg_rp sg = xs_rp s).
+Proof.
+  intros repP es ps n s sg cs w Hs.
+  destruct (NodeAgree_xrun repP es (xworld0 ps n) (XInv_init ps n) (NodeAgree_init ps n) s Hs) as (B & A).
+  split; [exact B|]. intros H1 H2 E. apply (A sg cs H1 H2 E).
+Qed.
+Print Assumptions C14_node_agrees_all_traces.
+
+Example C14_node_agrees_example :
+  let H := 3600000000000 in
+  let w := fst (xrun true true (xworld0 [{| xp_id := 1; xp_d := H; xp_sgd := H; xp_igd := 2 * H |}] 2)
+                  [XCreate 1 (472140 * H); XMat 1 true; XExpand; XAlter 1 (Some (2 * H)) None None; XTick 0 (472141 * H + 2 * H + 1) (472141 * H + 2 * H + 5)]) in
+  map xs_id (x_shards w) = [2] /\ map (fun g => map cs_id (sg_shards g)) (c_sgs (x_cat w)) = [[1; 2; 3]].
+Proof. vm_compute. auto. Qed.
